@@ -254,15 +254,16 @@ def dihedrals(xyz, quartets, box=None):
 
 
 def angle_tol(u, v, dx):
-    """float32 tolerance (rad) for an angle built from bond vectors u, v whose end points carry an
-    absolute coordinate error dx each: direction error 2*dx/|u| + 2*dx/|v| (end points move by dx),
-    plus the conditioning of acos on a float32 cosine (relative error dc ~ 4e-7):
-    dtheta <= dc/sin(theta) away from 0/pi and <= sqrt(2 dc) ~ 1e-3 at 0/pi."""
+    """float32 tolerance (rad) for an angle built from bond vectors u, v that carry an absolute error
+    dx each: direction error 2*dx/|u| + 2*dx/|v| (factor 2: safety), plus the conditioning of acos on a
+    float32 cosine: the cosine (a dot product and two norms, ~8 roundings of 2^-24 each) has a relative
+    error dc <= 1e-6; away from 0/pi  dtheta <= dc/sin(theta) (taken twice for safety), and at 0/pi the
+    clipped cosine gives at most sqrt(2 dc) = 1.4e-3 (taken 1.5x)."""
     nu = np.sqrt((u * u).sum(-1))
     nv = np.sqrt((v * v).sum(-1))
     th = angle_between(u, v)
-    dc = 4e-7
-    cond = np.minimum(dc / np.maximum(np.sin(th), 1e-12), 1e-3)
+    dc = 1e-6
+    cond = np.minimum(2 * dc / np.maximum(np.sin(th), 1e-12), 1.5 * np.sqrt(2 * dc))
     return 2 * dx / nu + 2 * dx / nv + cond + 2e-6
 
 
